@@ -63,6 +63,20 @@ def main(rep):
         cases.append(("j%d" % i, t, m))
     for i in range(n // 3):
         cases.append(("w%d" % i, wc.gen_world_case(rng, dump_around=True), {}))
+    for i in range(max(6, n // 25)):
+        # the store cannot take the version (a stray file sits where the directory of the versions belongs) while the
+        # source is perfectly readable: whatever the pass does, it must not journal the file as deleted or forbidden
+        s = wc.Script()
+        wc.setup_world(s, wc.base_cfg(deb=0))
+        s.start()
+        f = rng.choice([wc.WATCH + "/inc/a.txt", wc.WATCH + "/inc/b"])
+        s.put(f, "readable %d" % i)
+        s.put(wc.R + "/k/store" + f[len(wc.WATCH):], "stray")
+        s.write(3, f)
+        s.dump()
+        s.timeout()
+        s.dump()
+        cases.append(("b%d" % i, s.text(), {"journal_counts": False}))
     wk.standard_main(rep, cases=cases, monitors=MON, extra=empty_stamp_phase,
                      rule=("every label independently absent / empty / text, timestamp patterns {'' (expands to nothing), %s, x, t%s-, with slashes; and, implementation only, %Z in a time zone whose abbreviation is empty: a non-empty pattern that expands to nothing}, exec / write / pass events, "
                            "a short-write oracle (1-9 bytes) at a random call of ~30% of the operations, dump after every operation; monitors: each journal only grows, "
